@@ -40,6 +40,8 @@ func checkC15(p *Program, r *Report) {
 	r.Trusted = []string{"go/ssa", "absint evaluator", "spec/capabilities.tsv row SupportsModernFramingLayout"}
 	// segments and envelopes arrive in pieces on a socket: every read on the receive paths is exact
 	fullReads(p, r, "full-reads", "client", "segment", "frame", "primitive")
+	// v5 with LZ4 negotiated: every compressible payload must be decompressible (shared with C08)
+	c08Rules(p, r)
 
 	// ---- flag-clear -------------------------------------------------------------------------------------
 	r.Floor("flag-clear", 2)
